@@ -26,7 +26,7 @@ CLAIMS = {
     "C03": dict(
         engine="bounds sweep + libFuzzer",
         technique="ASan/UBSan boundary sweep (every truncation / byte replacement of valid inputs for 79 rules x 4 input classes) + coverage-guided libFuzzer with a semantic window oracle (guarded peek/bump hook, metamorphic bytes-beyond-end relation)",
-        text="Exploration: inputs live in exact-size heap blocks without terminator or inside poisoned larger buffers, so that any read at or beyond the end is an ASan report, any peek/bump beyond the window is reported by the guarded hook, and any dependence on bytes beyond the logical end shows up as a changed result. Boundary cases are constructed (all truncations and single-byte replacements of valid documents for every shipped grammar and rule family) and then extended by a libFuzzer campaign seeded with them. Found the maximum_rule over-read (fixed, 7059460) and the limit_bytes end-before-cursor defect (fixed, 0faa8c6).",
+        text="Exploration: inputs live in exact-size heap blocks without terminator or inside poisoned larger buffers, so that any read at or beyond the end is an ASan report, any peek/bump beyond the window is reported by the guarded hook, and any dependence on bytes beyond the logical end shows up as a changed result. Boundary cases are constructed (all truncations and single-byte replacements of valid documents for every shipped grammar and rule family) and then extended by a libFuzzer campaign seeded with them. Found the maximum_rule over-read (fixed, 7059460), the limit_bytes end-before-cursor defect (fixed, 0faa8c6) and the pointer overflow in buffer_input::require() for huge amounts (libFuzzer, fixed, 00aadcf). The saved failing cases of the repaired defects are replayed by every run.",
         design_ref="DESIGN.md sections 1.5, 1.6, 2 C03",
         note="Trusted: ASan/UBSan (clang 14), the guarded hook in memory_input/buffer_input (commit 400b3e9)."),
     "C04": dict(
@@ -50,7 +50,7 @@ CLAIMS = {
     "C07": dict(
         engine="corpus+slots",
         technique="differential testing across input classes: generated grammars x inputs x rapidcheck read-size histories and buffer maxima; full trace (hooks, actions with spans as bytes, positions, errors) compared with the eager memory_input run",
-        text="Exploration: every generated grammar (plus derived scanning grammars with and without discard) is parsed on the same bytes through memory eager/lazy, string, argv, buffer_input with a pattern reader (Chunk 1,2,7,64), istream (2,7,64), and on files through read/mmap/cstream incl. the empty file and 4095/4096/4097/8192-byte files; the complete observable tuple must equal the baseline's, std::overflow_error being the only permitted deviation for incremental inputs. Found that buffer_input::require() reads only once (fixed, 06f55a6); two open findings (lazy tracking inside rematch, cr_crlf column) are shared with C06.",
+        text="Exploration: every generated grammar (plus derived scanning grammars with and without discard) is parsed on the same bytes through memory eager/lazy, string, argv, buffer_input with a pattern reader (Chunk 1,2,7,64), istream (2,7,64), and on files through read/mmap/cstream incl. the empty file and 4095/4096/4097/8192-byte files; the complete observable tuple must equal the baseline's; std::overflow_error is the only permitted deviation for incremental inputs, and for buffer_input only when the throwing request exceeds the documented guarantee (maximum bytes after the last discard point). The 79 rules / shipped grammars of the C03 sweep are compared memory_input vs buffer_input with 3-byte and 1-byte reads as well. Found that buffer_input::require() reads only once (fixed, 06f55a6); two open findings (lazy tracking inside rematch, cr_crlf column) are shared with C06.",
         design_ref="DESIGN.md section 2 C07",
         note="Trusted: the eager memory_input run as reference (its correctness is the business of C01-C06), harness/c07.hpp."),
     "C08": dict(
